@@ -76,8 +76,11 @@ def triggersForPath (p : Path) : List Trig :=
 def rootWriteNotify : List Trig := [C [], T [], C []]
 
 /-- dropping the guard returned by `Write::try_write` of a `Field<T>` / `ArcField<T>` made from the store itself
-(`ArcField::from(Store)`: `write = value.writer()`, i.e. `ArcStore::writer`): **`children[]` only** -/
-def rootHandleNotify : List Trig := [C []]
+(`ArcField::from(Store)`): since fix-c16-5 what `Store::try_write` notifies, from one guard -/
+def rootHandleNotify : List Trig := [C [], T [], C []]
+
+/-- … before fix-c16-5: `write = value.writer()`, i.e. `ArcStore::writer`: **`children[]` only** -/
+def rootHandleNotifyOld : List Trig := [C []]
 
 /-- the `loop` of `Subfield::track_field`, on the reversed path -/
 def trackLoop : List Nat → List Trig
@@ -302,9 +305,13 @@ inductive Acc
   | var (v i : Nat)
 deriving DecidableEq, Repr
 
-/-- the path segment `derive(Store)` gives field `i` of an enum variant: **always 0** (reactive_stores_macro
-`variant_to_tokens`: `Subfield::new(self, 0.into(), ..)`), so all fields of a variant share their triggers -/
-def varSeg (_i : Nat) : Nat := 0
+/-- the path segment `derive(Store)` gives field `i` of an enum variant: its index within the variant
+(reactive_stores_macro `variant_to_tokens`, since fix-c16-6) -/
+def varSeg (i : Nat) : Nat := i
+
+/-- … before fix-c16-6: **always 0** (`Subfield::new(self, 0.into(), ..)`), so all fields of a variant shared
+their triggers -/
+def varSegOld (_i : Nat) : Nat := 0
 
 /-- the variant of the enum value at `vpos` -/
 def variantAt (v : Val) (vpos : Option Path) : Option Nat :=
@@ -671,7 +678,7 @@ def stepOp (st : St) (op : Op) : St × Wrote :=
     (if imm then runEff st e else st, .done)
   | .set c v era =>
     if era.isSome && c.isEmpty then
-      -- `Field::<Root>::from(store).set(v)`: the handle's `write` is `ArcStore::writer`, not `Store::try_write`
+      -- `Field::<Root>::from(store).set(v)`: the handle's own `write` closure
       (notifyAll { st with val := v } rootHandleNotify, .done)
     else writeVia st c (fun _ => v)
   | .patch c v _ => patchVia st c v
